@@ -436,7 +436,9 @@ func (f *DefaultFanController) calculateTargetPwm() (int, error) {
 	fan := f.fan
 	target, err := f.curve.Evaluate()
 	if err != nil {
-		ui.Fatal("Unable to calculate optimal PWM value for %s: %v", fan.GetId(), err)
+		// e.g. a sensor that cannot be read right now: keep regulating with the curve's last good value
+		ui.Warning("Unable to calculate optimal PWM value for %s, using the last curve value: %v", fan.GetId(), err)
+		target = f.curve.CurrentValue()
 	}
 
 	// the target pwm, approaching the actual target smoothly
